@@ -316,7 +316,7 @@ func runHarness(prog *ssa.Program, fn *ssa.Function, cfg HarnessCfg, solverKind,
 	ex.curInstr = nil
 
 	// vacuity: end of harness reachable under the assumptions
-	vr := solver.Check([]*Term{st.g}, nil)
+	vr := ex.check([]*Term{st.g}, nil)
 	res.Vacuity = vr.Status
 	res.NumObl = len(ex.obligations) + ex.folded
 	res.Discharged = ex.folded
@@ -324,12 +324,21 @@ func runHarness(prog *ssa.Program, fn *ssa.Function, cfg HarnessCfg, solverKind,
 		res.Obligations = append(res.Obligations, OblResult{Kind: "assert", ID: f, Status: "unsat", Sample: "decided by constant folding during symbolic execution"})
 	}
 
+	budget := time.Duration(600) * time.Second
+	if b, ok := cfg.Opts["budget"]; ok {
+		if n, err := strconv.Atoi(b); err == nil {
+			budget = time.Duration(n) * time.Second
+		}
+	}
 	check := func(o *Obligation, want bool) OblResult {
+		if time.Since(t0) > budget {
+			return OblResult{Kind: o.Kind, ID: o.ID, Pos: o.Pos, Status: "unknown", Sample: "harness time budget exhausted"}
+		}
 		var w []*Term
 		if want {
 			w = ex.nondets
 		}
-		r := solver.Check([]*Term{o.Cond}, w)
+		r := ex.check([]*Term{o.Cond}, w)
 		or := OblResult{Kind: o.Kind, ID: o.ID, Pos: o.Pos, Status: r.Status, Secs: r.Secs}
 		if r.Status == "sat" && want {
 			res.Model = r.Model
@@ -353,7 +362,7 @@ func runHarness(prog *ssa.Program, fn *ssa.Function, cfg HarnessCfg, solverKind,
 		for _, o := range panics {
 			cs = append(cs, o.Cond)
 		}
-		r := solver.Check([]*Term{ex.ts.Or(cs...)}, nil)
+		r := ex.check([]*Term{ex.ts.Or(cs...)}, nil)
 		if r.Status == "unsat" {
 			for _, o := range panics {
 				res.Obligations = append(res.Obligations, OblResult{Kind: o.Kind, ID: o.ID, Pos: o.Pos, Status: "unsat", Secs: r.Secs / float64(len(panics)), Sample: "batched"})
@@ -430,6 +439,9 @@ func runHarness(prog *ssa.Program, fn *ssa.Function, cfg HarnessCfg, solverKind,
 		if err == nil {
 			for _, a := range ex.assumptions {
 				s2.Assert(a)
+			}
+			for _, d := range ex.defOf {
+				s2.Assert(d)
 			}
 			agree := 0
 			for _, o := range ex.obligations {
